@@ -472,6 +472,17 @@ def _docfn(kind):
                 dst[k] = src[k]
         return merge
 
+    if kind == 3:
+        def extend_lists(src, dst):
+            for k in src.keys():
+                if k in dst and isinstance(src[k], (list, tuple)) or (k in dst and hasattr(src[k], "append")):
+                    for x in src[k]:
+                        if x not in dst[k]:
+                            dst[k].append(x)          # in-place mutation of a nested list handed out by the proxy
+                elif k not in dst:
+                    dst[k] = src[k]
+        return extend_lists
+
     def nested(src, dst):
         for k in src.keys():
             if k in dst and hasattr(src[k], "keys") and not isinstance(dst[k], (int, str, float, list)):
@@ -487,6 +498,12 @@ def _dry_docfn_case(entry, kind, dstate, pstate):
     problems = []
     with SL.Scratch() as sc:
         src, dst = SL.build(sc.root, 15, 0, 0, 0, dstate, pstate)
+        if kind == 3:
+            src.open_job(SL.SPS[0]).document["l"] = [1, 2, {"m": [3]}]
+            dst.open_job(SL.SPS[0]).document["l"] = [1]
+            src.document["pl"] = [1, 2]
+            dst.document["pl"] = [1]
+            src, dst = signac.get_project(src.path, search=False), signac.get_project(dst.path, search=False)
         bs, bd = SL.snap(src.path, True), SL.snap(dst.path, True)
         import io, contextlib
         with contextlib.redirect_stdout(io.StringIO()):
@@ -502,9 +519,9 @@ def _dry_docfn_case(entry, kind, dstate, pstate):
 
 
 def h_dry_docfn(entry: int, kind: int, dstate: int, pstate: int):
-    assert 0 <= entry <= 3 and 0 <= kind <= 2 and 1 <= dstate <= 6 and 0 <= pstate <= 2
+    assert 0 <= entry <= 3 and 0 <= kind <= 3 and 1 <= dstate <= 6 and 0 <= pstate <= 2
     fresh_path()
-    entry, kind, dstate, pstate = ci(entry, 0, 3), ci(kind, 0, 2), ci(dstate, 1, 6), pick([0, 4, 5], pstate)
+    entry, kind, dstate, pstate = ci(entry, 0, 3), ci(kind, 0, 3), ci(dstate, 1, 6), pick([0, 4, 5], pstate)
     with nt():
         problems = _dry_docfn_case(entry, kind, dstate, pstate)
     reached()
